@@ -83,7 +83,7 @@ void vp_harness(void) {
 	_Bool has; if (has) { t_bidib_aspect a; a.id = mkstr("a"); vp_garray_append1(list, &a, sizeof a); }
 	guint before = list->len;
 	bool err = bidib_config_parse_aspect(&g_parser, list);
-	VP_COVER_LONG(!err && has); VP_COVER(err && vp_parsed == 1 && has); VP_COVER(err && vp_parsed >= VP_MAX_EVENTS - 1);
+	VP_COVER_LONG(!err && has); VP_COVER(err && vp_parsed == 1 && has); VP_COVER(err && vp_parsed >= 5);
 	VP_LEDGER_AT_RETURN();
 	if (!err) {
 		__CPROVER_assert(list->len == before + 1, "C14.aspect.accepted_aspect_appended_once");
